@@ -178,7 +178,12 @@ class ShardCtx:
             if type(e).__name__ in ("FlakyFailure", "Flaky", "FlakyStrategyDefinition"):
                 self.notes["hypothesis_flaky"] += 1
                 self.failures_flaky = getattr(self, "failures_flaky", [])
-                self.failures_flaky.append({"kind": "flaky", "detail": {"msg": str(e)[:2000]}, "case": None})
+                last = state.get("last")
+                self.failures_flaky.append({"kind": "flaky", "detail": {"msg": str(e)[:600],
+                                                                      "last_failure_kind": last[1].kind if last else None,
+                                                                      "last_failure_detail": json.loads(json.dumps(last[1].detail, default=str))
+                                                                      if last else None},
+                                            "case": (case_repr(*last[0]) if last else None)})
             else:
                 raise
 
